@@ -51,6 +51,7 @@ type Prog struct {
 	roles        *Roles
 	normalised   int // functions whose higher-order helper sites were inlined in place (normalise.go)
 	consumed     map[*ssa.Function]bool // helpers without remaining call sites after normalisation
+	outlined     map[string]*ssa.Function // per package: the step-back primitive given a name by the cursor model
 }
 
 // brokenf reports that the check itself cannot run (exit 2): never a silent pass.
